@@ -349,6 +349,24 @@ def frontend_probe(part, _=None):
             if got.shape != want.shape or not (np.abs(got - want).max() <= 1e-12) or not (np.abs(one - np.asarray(single(seed, D))).max() <= 1e-12):
                 part.fail("front-end:%s:probe" % method, "quasirandom(%d, %d, method=%r, seed=%d) does not return the points of the %s generators" % (n, D, method, seed, method), {"kind": "probe"})
             part.outcome(("probe", method))
+        # degenerate sizes and scalar types: one point, one dimension, a window of one seed; counts / dimension / seed given as numpy
+        # integers (np.int64, np.int32, np.uint8 - what len(), shape[1] or an index array hand over) instead of Python ints
+        for (n, D, seed) in ((1, 1, 1), (1, 3, 4), (4, 1, 2), (2, 2, 1), (7, 5, 9)):
+            want = np.asarray(batch(seed, seed + n - 1, D))
+            for tname, conv in (("int", int), ("np.int64", np.int64), ("np.int32", np.int32), ("np.uint8", np.uint8), ("0-d array", lambda x: np.array(x))):
+                part.ev()
+                part.tr(2)
+                try:
+                    got = np.asarray(S.quasirandom(conv(n), conv(D), method=method, seed=conv(seed)))
+                    one = np.asarray(S.quasirandom(conv(D), method=method, seed=conv(seed)))
+                except Exception as e:
+                    if tname == "0-d array":
+                        continue        # not an integer type: may be refused
+                    part.fail("front-end:%s:scalar-type-raise" % method, "quasirandom(%d, %d, method=%r, seed=%d) with the numbers given as %s raised %r" % (n, D, method, seed, tname, e), {"kind": "probe"})
+                    continue
+                if got.shape != (n, D) or not (np.abs(got - want).max() <= 1e-12) or one.shape != (D,) or not (np.abs(one - want[0]).max() <= 1e-12):
+                    part.fail("front-end:%s:scalar-type" % method, "quasirandom(%d, %d, method=%r, seed=%d) with the numbers given as %s returns shape %s / %s, expected (%d, %d) / (%d,) holding the generator's points"
+                              % (n, D, method, seed, tname, got.shape, one.shape, n, D, D), {"kind": "probe"})
     part.nstates(2)
 
 
